@@ -89,18 +89,22 @@ def method(cls, name):
     raise Unsupported("method %s.%s not found" % (cls.name, name))
 
 
+def where(node):
+    return getattr(node, "name", None) or "the %s at line %s" % (type(node).__name__, getattr(node, "lineno", "?"))
+
+
 def expect_stmt(fn, src, what):
     want = dump(parse_stmt(src))
     for n in ordered(fn):
         if isinstance(n, ast.stmt) and dump(n) == want:
             return n
-    raise Unsupported("%s: statement `%s` not found in %s" % (what, src.strip().split("\n")[0], fn.name))
+    raise Unsupported("%s: statement `%s` not found in %s" % (what, src.strip().split("\n")[0], where(fn)))
 
 
 def find_one(fn, pred, what):
     hits = [n for n in ordered(fn) if pred(n)]
     if len(hits) != 1:
-        raise Unsupported("%s: expected exactly one match in %s, found %d" % (what, fn.name, len(hits)))
+        raise Unsupported("%s: expected exactly one match in %s, found %d" % (what, where(fn), len(hits)))
     return hits[0]
 
 
